@@ -41,6 +41,16 @@ CLAIMED = {
             "DESIGN.md §4 C04",
             BASE_NOTE + " Decoders above io (values, packs, steps, records) inherit no-fabrication because every token read bottoms out in ReadBytes; the allocation budget is per make site (not cumulative) and element decoders called from a list's loop are abstracted in the list's unit (they are their own units); counts carried in 8 or 16 bits (CompositePack, record lists, text arrays) are bounded by the field width and not checked against the input. tcp-backed inputs are outside the contracts.",
             TECH),
+    "C05": ("proof",
+            "Frame: makeData builds exactly [10][0] be64(project code) be64(hash of the license in effect) be32(n) payload with payload = be16(pack type) ++ body (byte-level contracts, WriteHeader family included); license hash = the table-driven 64-bit fold (C15). "
+            "Body: hand-written, declarative token layouts — the reference encoder — as postconditions of the REAL Write of the common header (both forms; form 1's first byte is <= 8 so it never equals the marker 9) and of the hit-map, text, zip, tag-count, log-sink (+ResetTagHash), parameter, event and counter packs, "
+            "position by position (kind and payload of every token, nested blobs addressed through their origin array, loops by invariants), with the frame 'everything before is unchanged'. The tag hash on the wire is proved to be Hash64 of exactly the spliced tag bytes. "
+            "A change of order, width, marker, version byte or presence flag in a writer fails a layout obligation even when the reader is changed consistently (25 such mutations tried, all caught).",
+            "DESIGN.md §4 C05, §10.4",
+            BASE_NOTE + " Each token kind has a fixed byte image by io's byte-level contracts (C01); the token view itself is an assumed abstraction. The layouts were written from the Go writers and the Java-port comments in them (no protocol document is available offline), so they pin the CURRENT wire format rather than an external standard. "
+            "CounterPack1 is covered for the configuration NewCounterPack1 produces (optional DB-pool/netstat/websocket/extra/meter sections absent: precondition cpPlain); the element-wise clause of ActiveStat is proved only as a loop invariant. Trusted: hmap dictionary model (insertion-ordered), fmt.Sprintf(\"%d\"), value/pack equivalence axioms. "
+            "Three byte(len) truncations are known findings; a stale cached tag hash after PutTag is an executable-witness observation (not expressible at token level).",
+            TECH),
     "C06": ("other",
             "PARTIAL, by design of the technique: the sequential, per-function part of the property is proved, the scheduling part only through a lock discipline. Proved (contracts over a ghost model of the outgoing byte stream and a ghost frame log): "
             "makeData builds exactly one frame (source 10, version 0, project code, hash of the license in effect, length, pack type); send appends exactly that buffer once and in order or, on error, a prefix to a writer that is then sticky-failed; "
@@ -113,6 +123,15 @@ CLAIMED = {
             "IPv4 int<->bytes inverse; Java-style HashCode fold. The 32-bit murmur hash differs from both references on some tails: known findings.",
             "DESIGN.md §5 C15",
             BASE_NOTE + " Assumed: single-digit strconv.Itoa/Atoi, []byte(str) has the string's bytes. IPv4 text conversions (strconv/strings) are outside the verifier and not claimed.",
+            TECH),
+    "C16": ("other",
+            "PARTIAL, by design of the technique: the sequential part is proved over ghost histories, schedules are not decided. Proved: representation invariant accepted == emitted ++ pending with packCount == number of pending records and the buffer's token stream == their encodings; "
+            "Append flushes exactly when the size after the write reaches the limit or the waiting time is reached, sendAndClear emits exactly the pending records, RecordCount equals the number of records in the payload, the payload (after UnZip when flagged) decodes to exactly those records in order; "
+            "compression is applied exactly when the payload reaches the minimum size; SendDirect emits its argument in order in contiguous non-empty packs, each but the last having reached the limit, each pack fresh; whole-log statement: the emitted packs partition the accepted records into consecutive segments (exactly once, in order). "
+            "Non-interference: every emitted pack's Records array is fresh and is not the sender's buffer storage, Append modifies nothing reachable from emitted packs (a retaining client is modelled). Defaults 5000/1000/65536/100 are in force after GetInstance without options and after ApplyConfig with an empty configuration.",
+            "DESIGN.md §5 C16, §10.4",
+            BASE_NOTE + " TRUSTED: bytes.Buffer storage model (Bytes aliases the internal array, Reset keeps it, Write overwrites in place or moves), TcpClient.SendFlush only appends to the ghost log, gzip inverse pair, a full copy append([]byte(nil), b...) carries b's token stream, encoding size of a record between 2 bytes and 1 GiB, logger/context/config externs. "
+            "NOT decided: run() (channel select is not modelled; its two actions are exactly Append and sendAndClear), interleavings (ApplyConfig/SetTcpClient racing run; there is no lock), wall-clock flush timing, queue hand-over (C11).",
             TECH),
     "C19": ("proof",
             "Gregorian spec functions written from the calendar rules; the three nested loops of the century table proved with full invariants (every one of the 36525 entries carries the civil date, "
